@@ -1,1 +1,284 @@
-crate::list![];
+//! C15 (hand-written part): growth across the first reallocation, capacity
+//! arithmetic, zero-sized and drop-tracked element types, `==` termination.
+//! The enumerated operation-kind sequences are in `c15_list_gen.rs`.
+use crate::cover;
+use crate::nd::{any, assume};
+use roto::verif_api::list_verif;
+use roto::{List, Val};
+
+/// `compute_capacity(size, required)`: enough room, the documented minimum,
+/// a power of two otherwise, and monotone in `required`.
+#[cfg_attr(kani, kani::proof)]
+pub fn c15_compute_capacity() {
+    let size: usize = any();
+    let r1: usize = any();
+    let r2: usize = any();
+    assume(size >= 1 && size <= 1 << 20);
+    assume(r1 <= 1 << 40 && r2 <= 1 << 40 && r1 <= r2);
+    let c1 = list_verif::compute_capacity(size, r1);
+    let c2 = list_verif::compute_capacity(size, r2);
+    let min = if size == 1 { 8 } else if size <= 1024 { 4 } else { 1 };
+    if r1 == 0 {
+        assert!(c1 == 0);
+    } else {
+        assert!(c1 >= r1, "capacity smaller than required");
+        assert!(c1 >= min, "below documented minimum");
+        assert!(c1 == min || c1.is_power_of_two());
+        assert!(c1 == min || c1 < 2 * r1, "more than doubling");
+    }
+    assert!(c1 <= c2, "not monotone");
+    cover!(r1 > 0 && c1 > min, "beyond_minimum");
+}
+
+/// Pushes across the first growth boundary (u64: minimum capacity 4 -> 8):
+/// every element survives the reallocation.
+#[cfg_attr(kani, kani::proof)]
+#[cfg_attr(kani, kani::stub(std::sync::Mutex::lock, crate::stubs::mutex_lock_stub))]
+#[cfg_attr(kani, kani::unwind(8))]
+pub fn c15_growth_u64() {
+    let a: List<u64> = List::new();
+    let v: [u64; 5] = any();
+    let mut i = 0;
+    while i < 5 {
+        a.push(v[i]);
+        i += 1;
+    }
+    let k: usize = any();
+    assume(k <= 5);
+    let g = a.get(k);
+    if k < 5 {
+        assert!(g == Some(v[k]), "element lost or changed by growth");
+    } else {
+        assert!(g.is_none());
+    }
+    assert!(a.len() == 5 && a.capacity() >= 5);
+    cover!(a.capacity() > 4, "reallocated");
+    std::mem::forget(a);
+}
+
+/// u8: minimum capacity 8 -> 16 on the ninth push.
+#[cfg_attr(kani, kani::proof)]
+#[cfg_attr(kani, kani::stub(std::sync::Mutex::lock, crate::stubs::mutex_lock_stub))]
+#[cfg_attr(kani, kani::unwind(12))]
+pub fn c15_growth_u8() {
+    let a: List<u8> = List::new();
+    let v: [u8; 9] = any();
+    let mut i = 0;
+    while i < 9 {
+        a.push(v[i]);
+        i += 1;
+    }
+    let k: usize = any();
+    assume(k <= 9);
+    let g = a.get(k);
+    if k < 9 {
+        assert!(g == Some(v[k]), "element lost or changed by growth");
+    } else {
+        assert!(g.is_none());
+    }
+    cover!(a.capacity() > 8, "reallocated");
+    std::mem::forget(a);
+}
+
+#[derive(Clone, PartialEq, Default, Copy)]
+pub struct Zst;
+
+/// Zero-sized element type: no allocation, capacity usize::MAX, length counts.
+#[cfg_attr(kani, kani::proof)]
+#[cfg_attr(kani, kani::stub(std::sync::Mutex::lock, crate::stubs::mutex_lock_stub))]
+#[cfg_attr(kani, kani::unwind(6))]
+#[cfg_attr(kani, kani::stub(core::ptr::swap_nonoverlapping, crate::stubs::swap_nonoverlapping_stub))]
+pub fn c15_zst_list() {
+    let a: List<Val<Zst>> = List::new();
+    let b = a.clone();
+    let n: usize = any();
+    assume(n <= 3);
+    let mut i = 0;
+    while i < n {
+        if i % 2 == 0 { a.push(Val(Zst)) } else { b.push(Val(Zst)) };
+        i += 1;
+    }
+    assert!(a.len() == n && b.len() == n);
+    assert!(a.capacity() == usize::MAX);
+    let k: usize = any();
+    assume(k <= 4 || k == usize::MAX);
+    assert!(a.get(k).is_some() == (k < n));
+    b.swap(0, 1);
+    b.swap(0, 7);
+    assert!(a.len() == n);
+    cover!(n == 3, "three_elements");
+    std::mem::forget(a);
+    std::mem::forget(b);
+}
+
+static mut LIVE: i64 = 0;
+static mut CLONES: u64 = 0;
+
+/// 24-byte element type whose clones and drops are counted
+#[derive(PartialEq)]
+pub struct Tracked {
+    id: u64,
+    pad: [u64; 2],
+}
+impl Tracked {
+    fn new(id: u64) -> Self {
+        unsafe { LIVE += 1 };
+        Tracked { id, pad: [id ^ 0x55, !id] }
+    }
+}
+impl Clone for Tracked {
+    fn clone(&self) -> Self {
+        unsafe {
+            LIVE += 1;
+            CLONES += 1;
+        }
+        Tracked { id: self.id, pad: self.pad }
+    }
+}
+impl Drop for Tracked {
+    fn drop(&mut self) {
+        unsafe { LIVE -= 1 };
+    }
+}
+
+/// Drop-tracked 24-byte elements: `get` clones, handles share the storage,
+/// and when the last handle goes every element is dropped exactly once.
+#[cfg_attr(kani, kani::proof)]
+#[cfg_attr(kani, kani::stub(std::sync::Mutex::lock, crate::stubs::mutex_lock_stub))]
+#[cfg_attr(kani, kani::unwind(26))]
+#[cfg_attr(kani, kani::stub(core::ptr::swap_nonoverlapping, crate::stubs::swap_nonoverlapping_stub))]
+pub fn c15_tracked_balance() {
+    unsafe {
+        LIVE = 0;
+        CLONES = 0;
+    }
+    let x: u64 = any();
+    let y: u64 = any();
+    {
+        let a: List<Val<Tracked>> = List::new();
+        let b = a.clone();
+        a.push(Val(Tracked::new(x)));
+        b.push(Val(Tracked::new(y)));
+        assert!(unsafe { LIVE } == 2);
+        let k: usize = any();
+        assume(k <= 2);
+        let g = a.get(k);
+        match &g {
+            Some(t) => {
+                assert!(t.id == if k == 0 { x } else { y });
+                assert!(t.pad[0] == t.id ^ 0x55 && t.pad[1] == !t.id, "element bytes torn");
+                assert!(unsafe { LIVE } == 3, "get must clone exactly once");
+            }
+            None => assert!(k == 2 && unsafe { LIVE } == 2),
+        }
+        b.swap(0, 1);
+        assert!(unsafe { LIVE } == if g.is_some() { 3 } else { 2 }, "swap must not clone or drop");
+        drop(g);
+        drop(a);
+        assert!(unsafe { LIVE } == 2, "dropping one handle must not drop elements");
+        let h = b.get(0);
+        assert!(h.as_ref().map(|t| t.id) == Some(y), "swap not visible through the other handle");
+        drop(h);
+    }
+    assert!(unsafe { LIVE } == 0, "elements leaked or double-dropped when the last handle went");
+    cover!(unsafe { CLONES } == 2, "both_gets_cloned");
+}
+
+/// `a == b` on two distinct lists terminates with the element-wise answer
+/// (Rust API `List::eq`).
+#[cfg_attr(kani, kani::proof)]
+#[cfg_attr(kani, kani::stub(std::sync::Mutex::lock, crate::stubs::mutex_lock_stub))]
+#[cfg_attr(kani, kani::unwind(4))]
+pub fn c15_eq_distinct_rust() {
+    let a: List<u8> = List::new();
+    let b: List<u8> = List::new();
+    let x: u8 = any();
+    let y: u8 = any();
+    a.push(x);
+    b.push(y);
+    let r = a == b;
+    assert!(r == (x == y), "== on distinct lists gives the wrong answer");
+    cover!(r, "equal");
+    cover!(!r, "different");
+    std::mem::forget(a);
+    std::mem::forget(b);
+}
+
+/// same list through two handles: equal without locking twice
+#[cfg_attr(kani, kani::proof)]
+#[cfg_attr(kani, kani::stub(std::sync::Mutex::lock, crate::stubs::mutex_lock_stub))]
+#[cfg_attr(kani, kani::unwind(4))]
+pub fn c15_eq_alias() {
+    let a: List<u64> = List::new();
+    let b = a.clone();
+    a.push(any());
+    assert!(a == b);
+    assert!(list_verif::erased_eq(&a, &b));
+    cover!(true, "reached_end");
+    std::mem::forget(a);
+    std::mem::forget(b);
+}
+
+/// lengths differ -> not equal (script-side `==`, ErasedList::eq; no element
+/// comparison through the vtable is needed on this path)
+#[cfg_attr(kani, kani::proof)]
+#[cfg_attr(kani, kani::stub(std::sync::Mutex::lock, crate::stubs::mutex_lock_stub))]
+#[cfg_attr(kani, kani::unwind(4))]
+pub fn c15_eq_distinct_erased_len() {
+    let a: List<u8> = List::new();
+    let b: List<u8> = List::new();
+    a.push(any());
+    let r = list_verif::erased_eq(&a, &b);
+    assert!(!r);
+    let r2 = list_verif::erased_eq(&b, &b.clone());
+    assert!(r2);
+    cover!(true, "reached_end");
+    std::mem::forget(a);
+    std::mem::forget(b);
+}
+
+/// script-side get (`ffi::list_get`) on one list: writes Some(tag 0)+payload
+/// at the aligned offset for an in-range index, None (tag 1) otherwise,
+/// including indices that do not fit usize.
+#[cfg_attr(kani, kani::proof)]
+#[cfg_attr(kani, kani::stub(std::sync::Mutex::lock, crate::stubs::mutex_lock_stub))]
+#[cfg_attr(kani, kani::unwind(6))]
+pub fn c15_ffi_list_get_u32() {
+    let a: List<u32> = List::new();
+    let x: u32 = any();
+    let y: u32 = any();
+    a.push(x);
+    a.push(y);
+    let mut out = [0xAAu8; 8];
+    let i: u64 = any();
+    assume(i <= 3 || i == u64::MAX);
+    // SAFETY: out is 8 bytes, 4-aligned enough for RotoOption<u32> (align 4): use an aligned buffer
+    let mut slot = std::mem::MaybeUninit::<roto::verif_api::RotoOption<u32>>::uninit();
+    unsafe { list_verif::list_get(slot.as_mut_ptr() as *mut u8, &a, i) };
+    let p = slot.as_ptr() as *const u8;
+    unsafe {
+        if i < 2 {
+            assert!(*p == 0, "in-range get must be Some");
+            let v = std::ptr::read(p.add(4) as *const u32);
+            assert!(v == if i == 0 { x } else { y }, "wrong payload");
+        } else {
+            assert!(*p == 1, "out-of-range get must be None");
+        }
+    }
+    out[0] = 0;
+    cover!(i < 2, "some");
+    cover!(i >= 2, "none");
+    std::mem::forget(a);
+}
+
+crate::list![
+    c15_compute_capacity,
+    c15_growth_u64,
+    c15_growth_u8,
+    c15_zst_list,
+    c15_tracked_balance,
+    c15_eq_distinct_rust,
+    c15_eq_alias,
+    c15_eq_distinct_erased_len,
+    c15_ffi_list_get_u32,
+];
